@@ -148,6 +148,17 @@ func (pq *PrefetchQueue) processPrefetch(req PrefetchRequest) {
 	// from the copy (it is the cache key and the validation opt-out).
 	if opt := prefetchReq.IsEdns0(); opt != nil {
 		opt.SetDo(true)
+		// Only shared entries are refreshed (PrefetchEligible), and the
+		// refresh is nobody's query: the trigger's client subnet must not
+		// travel upstream with it, nor may a subnet-specific answer come
+		// back to be filed under the shared key.
+		kept := opt.Option[:0]
+		for _, option := range opt.Option {
+			if _, ok := option.(*dns.EDNS0_SUBNET); !ok {
+				kept = append(kept, option)
+			}
+		}
+		opt.Option = kept
 	} else {
 		prefetchReq.SetEdns0(dnsutil.DefaultMsgSize, true)
 	}
